@@ -362,6 +362,16 @@ func (f *Frame) specEnv(cur *State, at *ssa.BasicBlock, atIdx int, phiSubst map[
 		return f.resolveLocal(name, at, atIdx, phiSubst, e)
 	}
 	if li != nil {
+		e.mapIter = func() *mapRange {
+			for b := range li.body {
+				for _, ins := range b.Instrs {
+					if nx, ok := ins.(*ssa.Next); ok && b == li.header {
+						return f.rangeIt[nx.Iter]
+					}
+				}
+			}
+			return nil
+		}
 		e.iter = func() (T, bool) {
 			for _, ins := range li.header.Instrs {
 				if p, ok := ins.(*ssa.Phi); ok && p.Comment == "rangeindex" {
